@@ -124,9 +124,13 @@ Fixpoint expand_spec (repl : list Z) (s : list Z) (mm : mtch) : option (list Z) 
   | x :: r => cons [x] (expand_spec r s mm)
   end.
 
-(* the harness's replacer function returns "<" + arguments.length + ">" and
-   logs its arguments: matched, captures, offset, string *)
-Definition fn_repl (c : caps) : list Z := [60] ++ dec (length c + 3) ++ [62].
+(* the harness's replacer function logs its arguments: matched, captures, offset, string *)
+Definition fn_repl (ret : list Z) (c : caps) : list Z := ret ++ [60] ++ dec (length c + 3) ++ [62].
+
+(* the replaceValue of replace: a text (table 22 applies) or the harness's
+   function, which returns the fixed text [ret] followed by "<" + arguments.length + ">";
+   what a function returns is inserted as it is, $ included *)
+Inductive rv := RText (t : list Z) | RFun (ret : list Z).
 Definition fn_log (s : list Z) (mm : mtch) : list ov :=
   let '(i, e, c) := mm in
   [OZ (Z.of_nat (length c + 3)); OS (sub s i e)] ++ map (cap_ov s) c ++ [OZ (Z.of_nat i); OS s].
@@ -146,7 +150,7 @@ Fixpoint build (expand : mtch -> option (list Z)) (s : list Z) (prev : nat) (ms 
    For a global expression lastIndex is updated "in the same manner as in
    String.prototype.match" (ends at 0); for a non-global one the clause does
    not mention lastIndex: unchanged. *)
-Definition replace_spec (g : bool) (li : Z) (s : list Z) (repl : option (list Z)) : option (list ov * Z) :=
+Definition replace_spec (g : bool) (li : Z) (s : list Z) (repl : rv) : option (list ov * Z) :=
   let ms :=
     if g then all_matches_es5 s
     else match exec_spec false 0 s with
@@ -158,15 +162,41 @@ Definition replace_spec (g : bool) (li : Z) (s : list Z) (repl : option (list Z)
   | None => None
   | Some ms =>
       let expand := match repl with
-                    | Some rp => fun m => expand_spec rp s m
-                    | None => fun m : mtch => Some (fn_repl (snd m))
+                    | RText rp => fun m => expand_spec rp s m
+                    | RFun ret => fun m : mtch => Some (fn_repl ret (snd m))
                     end in
       match build expand s 0 ms with
       | None => None
       | Some res =>
-          let log := match repl with Some _ => [] | None => flat_map (fn_log s) ms end in
+          let log := match repl with RText _ => [] | RFun _ => flat_map (fn_log s) ms end in
           Some (OS res :: log, if g then 0 else li)
       end
+  end.
+
+(* 15.5.4.11 with a searchValue that is not a regular expression: the first
+   occurrence of the string, m = 0 captures; [expand] is the table-22 expansion *)
+Fixpoint prefixb (p s : list Z) : bool :=
+  match p, s with
+  | [], _ => true
+  | a :: p', b :: s' => (a =? b) && prefixb p' s'
+  | _ :: _, [] => false
+  end.
+Fixpoint find_lit (p s : list Z) (i : nat) : option nat :=
+  if prefixb p s then Some i
+  else match s with [] => None | _ :: s' => find_lit p s' (S i) end.
+
+Definition replace_str (expand : list Z -> list Z -> mtch -> option (list Z)) (s pat : list Z) (repl : rv) : option (list ov) :=
+  let ms := match find_lit pat s O with
+            | None => []
+            | Some i => [(i, (i + length pat)%nat, @nil (option (nat * nat)))]
+            end in
+  let ex := match repl with
+            | RText rp => fun m => expand rp s m
+            | RFun ret => fun m : mtch => Some (fn_repl ret (snd m))
+            end in
+  match build ex s 0 ms with
+  | None => None
+  | Some res => Some (OS res :: match repl with RText _ => [] | RFun _ => flat_map (fn_log s) ms end)
   end.
 
 (* 15.5.4.12: lastIndex and global are ignored, lastIndex is left unchanged *)
